@@ -10,10 +10,26 @@
                                        equation), join_choice_log (nothing else is logged, no passage entered,
                                        position kept), join_block_statements_once (straight-line blocks: the log)
    Only its own block:                 join_only_own_block
-   What it offers:                     join_choice_offers_next_section
+   What it offers:                     join_choice_offers_next_section (+ _no_block_choices, the special case),
+                                       join_offers_block_choices_demo
    As an engine operation:             join_choice_as_engine_operation (restore point, redo, one-time mark, undo)
-   Shapes outside the property's text: join_choice_without_marker, join_choice_after_last_marker_raises,
-                                       join_drops_block_choices_refuted (see the comments there) *)
+   Shapes outside the property's text: join_choice_without_marker, join_choice_after_last_marker_raises
+
+   CHANGED with /repo 310398c (fix F10d, /verif/proposed_fixes/F10d-join-section-block-choices.diff):
+   _render_from_join_marker now splits the directives of the section text like _render_passage does and offers
+   [passage-level choices of section k+1] ++ [the block choices the section text just produced].  The model
+   (Engine.v render_from_join_marker) follows, therefore
+   * join_choice_offers_next_section now says: the offered choices are filter_choices of
+     join_cands p (k+1) (dir_choices pds) = section-(k+1) passage-level candidates ++ block choices of the
+     between-markers rendering pds (before: of the passage-level candidates only).  Its membership clause became a
+     disjunction (passage-level choice of section k+1, or a DChoice directive of pds), the closed formula under
+     purity got the second summand for the block choices.  The old statement is kept as the special case
+     join_choice_offers_next_section_no_block_choices (dir_choices pds = []).
+   * join_choice_output / join_choice_log / join_choice_is_block_then_section_then_hooks: the result now carries
+     dir_renders pds as render directives (after those of the block) and dir_inputs pds as input directives
+     (before: every directive of pds as a render directive, and no input directive).
+   * join_drops_block_choices_refuted (the witness of the defect) is gone; join_offers_block_choices_demo shows the
+     minimal story of the patch header now offering ['Cond'], and choosing it going to End. *)
 From Coq Require Import String Ascii List Bool ZArith Arith.
 From Bardic Require Import PyStr Value Compiled Engine EngineBase EngineNav EngineParams EngineSem EngineJump
      EngineUndo EngineHooks EngineChoice EngineJoin.
@@ -93,8 +109,10 @@ Print Assumptions between_markers_absent.
    (k = cur_section s): the text of ONE rendering of the chosen choice's block, started in the state before the
    choice, then the text of ONE rendering of the tokens between marker k and marker k+1, started where the block
    ended (a newline is put between the two when the block text does not end with one: join_content), then the
-   turn_end hook text if any.  Directives of both parts are handed on as render directives, a jump met in the
-   section text is reported, and current() afterwards is this result. *)
+   turn_end hook text if any.  The directives of the block are handed on as render directives, followed by the
+   render directives of the section text; the @input directives of the section text are reported as input
+   directives (its choice directives are offered: join_choice_offers_next_section); a jump met in the section text
+   is reported, and current() afterwards is this result. *)
 Theorem join_choice_output : forall orc ctxkeys st c s s' o p,
   get_passage st (cur_pid s) = Some p -> cur_section s < count_markers (content p) ->
   execute_join_choice orc ctxkeys st c s = (s', Ok o) ->
@@ -102,8 +120,8 @@ Theorem join_choice_output : forall orc ctxkeys st c s s' o p,
     render_content orc ctxkeys (ch_block (rc_choice c)) s = (s1, Ok (btxt, jb, bds)) /\
     render_content orc ctxkeys (between_markers (cur_section s) (content p)) s1 = (s2, Ok (ptxt, j, pds)) /\
     o_content o = o_content (with_hook_output (mkOut (join_content btxt ptxt) [] "" [] [] None) h) /\
-    o_pid o = cur_pid s /\ o_render o = map dir_as_render bds ++ map dir_as_render pds /\
-    o_input o = [] /\ o_jump o = j /\ out (nc s') = Some o.
+    o_pid o = cur_pid s /\ o_render o = map dir_as_render bds ++ dir_renders pds /\
+    o_input o = dir_inputs pds /\ o_jump o = j /\ out (nc s') = Some o.
 Proof. exact EngineJoin.join_choice_output. Qed.
 Print Assumptions join_choice_output.
 
@@ -114,7 +132,8 @@ Proof. exact join_content_newline. Qed.
 Print Assumptions join_content_is_concatenation.
 
 (* the state transformer of a join choice, as an equation (so it also covers every failing run): render the block
-   once; render the section text once and filter the next section's passage-level choices (section_render); advance
+   once; render the section text once and filter the next section's passage-level choices followed by the block
+   choices that rendering produced (section_render); advance
    the counter; cache the result; run the turn_end hooks.  Nothing else: join_turn mentions no other block, no
    passage is executed, the position is not assigned. *)
 Theorem join_choice_is_block_then_section_then_hooks : forall orc ctxkeys st c s p,
@@ -135,7 +154,7 @@ Theorem join_choice_log : forall orc ctxkeys st c s s' o,
     render_content orc ctxkeys (ch_block (rc_choice c)) s = (s1, Ok (btxt, jb, bds)) /\
     join_tokens p (cur_section s) = Ok toks /\
     render_content orc ctxkeys toks s1 = (s2, Ok (ptxt, j, pds)) /\
-    filter_choices orc ctxkeys (section_cands p (S (cur_section s))) (S (cur_section s)) s2 = (s3, Ok chs) /\
+    filter_choices orc ctxkeys (join_cands p (S (cur_section s)) (dir_choices pds)) 0 s2 = (s3, Ok chs) /\
     log s1 = log s ++ lb /\ log s2 = log s1 ++ lm /\ log s3 = log s2 ++ lc /\
     log s' = log s ++ lb ++ lm ++ lc ++ lh /\
     List.Forall low_event (lb ++ lm ++ lc) /\ entered (lb ++ lm ++ lc) = [] /\ hook_runs (lb ++ lm ++ lc) = [] /\
@@ -174,26 +193,55 @@ Theorem join_only_own_block : forall orc ctxkeys p p' pid c s,
 Proof. exact join_turn_other_blocks. Qed.
 Print Assumptions join_only_own_block.
 
-(* what is offered afterwards: exactly filter_choices of the passage-level choices written in section k+1 (for
-   the compiler's pure choice texts: the enabled ones, by the same formula as C02 offered_exactly_enabled with no
-   block choices); k+1 is the passage's new progress, so the invariant of join_one_section_at_a_time holds again *)
+(* what is offered afterwards: exactly filter_choices (run without a section test: flag true / section 0) of
+   join_cands p (k+1) (dir_choices pds) = the passage-level choices written in section k+1 followed by the block
+   choices (@if / @for) that the rendering pds of the text between marker k and marker k+1 produced.  So every
+   offered choice is a passage-level choice of section k+1 or a choice directive of that rendering, and for the
+   compiler's pure choice texts the offer is: the enabled passage-level choices of section k+1 (the formula of C02
+   offered_exactly_enabled) ++ the enabled block choices; k+1 is the passage's new progress *)
 Theorem join_choice_offers_next_section : forall orc ctxkeys st c s s' o,
   execute_join_choice orc ctxkeys st c s = (s', Ok o) ->
-  exists p s2 s3,
+  exists p btxt jb bds s1 toks ptxt j pds s2 s3,
     get_passage st (cur_pid s) = Some p /\
-    filter_choices orc ctxkeys (section_cands p (S (cur_section s))) (S (cur_section s)) s2
+    render_content orc ctxkeys (ch_block (rc_choice c)) s = (s1, Ok (btxt, jb, bds)) /\
+    join_tokens p (cur_section s) = Ok toks /\
+    render_content orc ctxkeys toks s1 = (s2, Ok (ptxt, j, pds)) /\
+    filter_choices orc ctxkeys (join_cands p (S (cur_section s)) (dir_choices pds)) 0 s2
       = (s3, Ok (o_choices o)) /\
     lookup (cur_pid s) (joinidx (nc s')) = Some (S (cur_section s)) /\
-    List.Forall (fun rc => List.In (rc_choice rc) (choices p) /\ ch_section (rc_choice rc) = S (cur_section s))
-                (o_choices o) /\
-    List.Forall (fun rc => exists dt fd, List.In (rc_choice rc, dt, fd) (passage_cands p []) /\
-                                         dir_section (rc_choice rc) fd = S (cur_section s)) (o_choices o) /\
-    (List.Forall pure_choice (choices p) ->
+    List.Forall (fun rc => (List.In (rc_choice rc) (choices p) /\ ch_section (rc_choice rc) = S (cur_section s)) \/
+                           (exists t, List.In (DChoice (rc_choice rc) t) pds)) (o_choices o) /\
+    (List.Forall pure_choice (choices p) -> List.Forall (fun ct => pure_choice (fst ct)) (dir_choices pds) ->
      s3 = s2 /\
-     o_choices o = map (shown orc ctxkeys s2)
-                       (filter (keep orc ctxkeys s2 (S (cur_section s))) (passage_cands p []))).
+     o_choices o = (map (shown orc ctxkeys s2)
+                        (filter (keep orc ctxkeys s2 (S (cur_section s))) (passage_cands p [])) ++
+                    map (shown orc ctxkeys s2)
+                        (filter (keep orc ctxkeys s2 0) (block_cands (dir_choices pds))))%list).
 Proof. exact join_choice_offers. Qed.
 Print Assumptions join_choice_offers_next_section.
+
+(* a block candidate passes that loop exactly when it is enabled (no section test) *)
+Theorem join_block_choice_kept_iff_enabled : forall orc ctxkeys s c t,
+  keep orc ctxkeys s 0 (c, t, true) = enabled orc ctxkeys s c t.
+Proof. exact keep_block_cand. Qed.
+Print Assumptions join_block_choice_kept_iff_enabled.
+
+(* the statement as it was before the fix, now the special case of a section text that produces no block choice:
+   exactly the passage-level choices of section k+1, so the invariant of join_one_section_at_a_time holds again *)
+Theorem join_choice_offers_next_section_no_block_choices : forall orc ctxkeys st c s s' o,
+  execute_join_choice orc ctxkeys st c s = (s', Ok o) ->
+  exists p s1 toks ptxt j pds s2,
+    get_passage st (cur_pid s) = Some p /\
+    join_tokens p (cur_section s) = Ok toks /\
+    render_content orc ctxkeys toks s1 = (s2, Ok (ptxt, j, pds)) /\
+    (dir_choices pds = [] ->
+     List.Forall (fun rc => List.In (rc_choice rc) (choices p) /\ ch_section (rc_choice rc) = S (cur_section s))
+                 (o_choices o) /\
+     (List.Forall pure_choice (choices p) ->
+      o_choices o = map (shown orc ctxkeys s2)
+                        (filter (keep orc ctxkeys s2 (S (cur_section s))) (passage_cands p [])))).
+Proof. exact join_choice_offers_no_block_choices. Qed.
+Print Assumptions join_choice_offers_next_section_no_block_choices.
 
 (* choose(i) on a '-> @join' choice as an engine operation: exactly one restore point is pushed and redo is cleared
    like for any choice (C04), a one-time join choice is marked used (C02), undo brings the whole core back (progress,
@@ -354,32 +402,66 @@ Example join_after_last_marker_demo :
   = (true, Some (VInt 0)).
 Proof. vm_compute. reflexivity. Qed.
 
-(* Where the model (and the code it follows, bardic/runtime/engine.py _render_from_join_marker) departs from
-   "advances to the next section's choices": a choice that stands inside an @if/@for block of a later section is
-   produced by the rendering of that section's text but is NOT offered - it is handed on as a render directive.
-   The full statement would be: the offered choices are filter_choices of (section_cands p (k+1) ++ the block
-   choices among pds); the witness below refutes it.  Reported as a finding, candidate patch in
-   /verif/proposed_fixes/F10d-join-section-block-choices.diff. *)
-Definition cond_choice : choice := Choice [TText "cond"] "End" "" None true 0 [] [].
-Definition drop_passage : passage :=
-  mkPassage "D" [] [TText "intro"; TJoinMarker 0; TText "mid"; TCond [Branch "yes" [TText "!"] [cond_choice]]]
-            [Choice [TText "a"] "@join" "" None true 0 [] []] [] [] [].
-Definition drop_story : story :=
-  mkStory "D" [("D"%string, drop_passage); ("End"%string, mkPassage "End" [] [TText "end"] [] [] [] [])] [] [].
-Definition drop_e0 : estate := fst (init demo_orc [] drop_story []).
-Theorem join_drops_block_choices_refuted :
-  exists orc st e ch p s1 txt j,
-    nth_error (o_choices (current_out e)) 0 = Some ch /\ ch_target (rc_choice ch) = "@join"%string /\
-    get_passage st "D" = Some p /\ cur (ec e) = Some "D"%string /\
-    (* the section text produces an enabled block choice ... *)
-    render_content orc [] (between_markers 0 (content p)) (nstate_of e) = (s1, Ok (txt, j, [DChoice cond_choice None])) /\
-    enabled orc [] s1 cond_choice None = true /\
-    (* ... and the turn offers nothing, handing the choice on as a render directive *)
-    o_choices (current_out (fst (choose orc [] st e 0))) = [] /\
-    o_render (current_out (fst (choose orc [] st e 0))) = [RDError "choice" ""].
-Proof.
-  exists demo_orc, drop_story, drop_e0, (mkRC "a" (Choice [TText "a"] "@join" "" None true 0 [] [])), drop_passage,
-         (nstate_of drop_e0), "mid!"%string, None.
-  vm_compute. repeat split.
-Qed.
-Print Assumptions join_drops_block_choices_refuted.
+(* Block choices of a later section (fixed in /repo 310398c, F10d).  The minimal story of the patch header:
+       :: Start / Intro / + [A] -> @join / @join / Middle / @if True: / + [Cond] -> End / @endif      :: End / end
+   The section text produces the enabled block choice Cond; the join turn offers it (before the fix: nothing, and
+   the choice was handed on as a bogus render directive); there is no render directive; choosing it goes to End.
+   A loop choice (text rendered per item) and an @input line of the section are covered by the second story. *)
+Definition cond_choice : choice := Choice [TText "Cond"] "End" "" None true 0 [] [].
+Definition true_orc : pyorc :=
+  mkOrc (fun ctx c => if String.eqb c "True" then Ok (VBool true) else
+                      if String.eqb c "False" then Ok (VBool false) else
+                      if String.eqb c "[1, 2]" then Ok (VList [VInt 1; VInt 2]) else
+                      match lookup c ctx with Some v => Ok v | None => Exc NameError end)
+        (fun c _ => Ok c) (fun _ _ => Ok ""%string) (fun _ _ => Ok ([], [])).
+(* what the compiler produces for that source *)
+Definition blockch_passage : passage :=
+  mkPassage "Start" [] [TText "Intro"; TText nl; TJoinMarker 0; TText "Middle"; TText nl;
+                        TCond [Branch "True" [] [cond_choice]]; TText nl]
+            [Choice [TText "A"] "@join" "" None true 0 [] []] [] [] [].
+Definition blockch_story : story :=
+  mkStory "Start" [("Start"%string, blockch_passage);
+                   ("End"%string, mkPassage "End" [] [TText "end"; TText nl] [] [] [] [])] [] [].
+Definition blockch_e0 : estate := fst (init true_orc [] blockch_story []).
+Example join_offers_block_choices_demo :
+  let e1 := fst (choose true_orc [] blockch_story blockch_e0 0) in
+  let e2 := fst (choose true_orc [] blockch_story e1 0) in
+  map rc_text (o_choices (current_out blockch_e0)) = ["A"%string] /\
+  (* the section text produces the block choice, and it is enabled ... *)
+  render_content true_orc [] (between_markers 0 (content blockch_passage)) (nstate_of blockch_e0)
+    = (nstate_of blockch_e0, Ok (("Middle" ++ nl ++ nl)%string, None, [DChoice cond_choice None])) /\
+  enabled true_orc [] (nstate_of blockch_e0) cond_choice None = true /\
+  (* ... the turn offers it, with nothing handed on as a render or input directive ... *)
+  o_content (current_out e1) = ("Middle" ++ nl ++ nl)%string /\
+  o_choices (current_out e1) = [mkRC "Cond" cond_choice] /\
+  o_render (current_out e1) = [] /\ o_input (current_out e1) = [] /\
+  joinidx (ec e1) = [("Start"%string, 1)] /\ cur (ec e1) = Some "Start"%string /\
+  (* ... and choosing it goes to End *)
+  cur (ec e2) = Some "End"%string /\ o_content (current_out e2) = ("end" ++ nl)%string.
+Proof. vm_compute. repeat split. Qed.
+
+(* passage-level choices of the section come first, then the block choices in text order; a loop choice is offered
+   once per item with its own text; a disabled block choice is not offered; an @input line of the section is
+   reported as an input directive and a render directive stays a render directive *)
+Definition loop_choice : choice := Choice [TText "Item "; TExpr "q"] "End" "" None true 0 [] [].
+Definition off_choice : choice := Choice [TText "Off"] "End" "" (Some "False"%string) true 0 [] [].
+Definition order_passage : passage :=
+  mkPassage "S" [] [TText "one"; TJoinMarker 0; TText "two";
+                    TCond [Branch "True" [] [cond_choice; off_choice]];
+                    TInput [("name"%string, "nm"%string)];
+                    TLoop "q" "[1, 2]" [] [loop_choice];
+                    TJoinMarker 1; TText "three"; TCond [Branch "True" [] [off_choice]]]
+            [Choice [TText "A"] "@join" "" None true 0 [] [];
+             Choice [TText "Late"] "End" "" None true 2 [] [];
+             Choice [TText "B"] "@join" "" None true 1 [] []] [] [] [].
+Definition order_story : story :=
+  mkStory "S" [("S"%string, order_passage); ("End"%string, mkPassage "End" [] [TText "end"] [] [] [] [])] [] [].
+Example join_block_choices_order_demo :
+  let e0 := fst (init true_orc [] order_story []) in
+  let e1 := fst (choose true_orc [] order_story e0 0) in
+  let e2 := fst (choose true_orc [] order_story e1 0) in
+  map rc_text (o_choices (current_out e0)) = ["A"%string] /\
+  map rc_text (o_choices (current_out e1)) = ["B"; "Cond"; "Item 1"; "Item 2"]%string /\
+  o_input (current_out e1) = [[("name"%string, "nm"%string)]] /\ o_render (current_out e1) = [] /\
+  map rc_text (o_choices (current_out e2)) = ["Late"%string] /\ joinidx (ec e2) = [("S"%string, 2)].
+Proof. vm_compute. repeat split. Qed.
